@@ -28,6 +28,7 @@ type headInfo struct {
 }
 
 type probs struct {
+	OneShot float64 `json:"one_shot"`
 	Err     float64 `json:"err"`
 	Slow    float64 `json:"slow"`
 	Corrupt float64 `json:"corrupt"`
@@ -100,6 +101,21 @@ type source struct {
 	hold      *holdState
 	attackArm *armState
 
+	// one-shot faults: the next BlockByNumber request for exactly the node's current
+	// head height (the request revertTask makes) / the next BlockHeaderLatest request
+	// fails once. Armed by the controller atomically with a reorg, or at random.
+	oneShotHead bool
+	oneShotHdr  bool
+
+	// after stabilisation, "not available" answers that carry no information (height
+	// above head+1) are not throttled by a timer but parked until the node's head
+	// moves, the request is cancelled, or the quiescence protocol releases them.
+	parkCh chan struct{}
+	parked int
+
+	progress atomic.Uint64 // effective requests + head commits
+	rawReqs  atomic.Uint64 // all requests
+
 	// wall-clock time of the last effective request or head commit; read only by the
 	// stall watchdog (whose firing is an inconclusive outcome, never a verdict)
 	lastProgress atomic.Int64
@@ -119,6 +135,7 @@ func newSource(rng *rand.Rand, p probs, blocks []*chain.Blk, head *atomic.Pointe
 		canonIx: map[felt.Felt]struct{}{}, ever: map[felt.Felt]*chain.Blk{}, served: map[felt.Felt]struct{}{},
 		convCh: make(chan struct{}), excCh: make(chan struct{}), quietCh: make(chan struct{}),
 		wake: make(chan struct{}, 1), stats: map[string]int{}, quietN: 12,
+		parkCh: make(chan struct{}),
 	}
 	s.setCanonLocked(blocks)
 	return s
@@ -135,6 +152,7 @@ func (s *source) setCanonLocked(blocks []*chain.Blk) {
 
 // tick: every request advances the logical clock and may wake the controller.
 func (s *source) tick() {
+	s.rawReqs.Add(1)
 	s.reqs++
 	s.clock++
 	if s.trigger != 0 && s.reqs >= s.trigger {
@@ -154,6 +172,7 @@ func (s *source) tick() {
 // from the convergence bound.
 func (s *source) effTick() {
 	s.eff++
+	s.progress.Add(1)
 	s.lastProgress.Store(time.Now().UnixNano())
 	if s.stable && !s.converged && !s.exceeded && s.eff-s.stableEff > s.bound {
 		s.exceeded = true
@@ -191,6 +210,13 @@ const (
 func (s *source) drawBlockBehaviour() (int, time.Duration) {
 	if s.stable {
 		return behOK, 0
+	}
+	if y := s.rng.Float64(); y < s.p.OneShot {
+		s.oneShotHead = true
+		s.stats["one_shot_armed_at_random"]++
+	} else if y < s.p.OneShot*1.3 {
+		s.oneShotHdr = true
+		s.stats["one_shot_armed_at_random"]++
 	}
 	x := s.rng.Float64()
 	d := time.Duration(s.rng.IntN(3000)) * time.Microsecond
@@ -268,13 +294,40 @@ func (s *source) BlockByNumber(ctx context.Context, n uint64) (jsync.CommittedBl
 
 	// ---- linearisation point of the answer: content is chosen now
 	s.inflight--
+	if s.oneShotHead && int64(n) == s.head.Load().num {
+		s.oneShotHead = false
+		s.stats["one_shot_errors_on_request_for_head_height"]++
+		s.effTick()
+		s.mu.Unlock()
+		return jsync.CommittedBlock{}, errInjected
+	}
 	if n >= uint64(len(s.canon)) {
+		s.stats["not_available_answers"]++
 		if h := s.head.Load(); int64(n) == h.num+1 {
 			s.effTick()
+		} else if s.stable {
+			// no information in this answer until the head moves: park it
+			ch := s.parkCh
+			s.parked++
+			s.stats["parked_answers"]++
+			s.mu.Unlock()
+			select {
+			case <-ch:
+			case <-ctx.Done():
+			}
+			s.mu.Lock()
+			s.parked--
+			s.mu.Unlock()
+			return jsync.CommittedBlock{}, errNotYet
 		}
-		s.stats["not_available_answers"]++
+		stable := s.stable
 		s.mu.Unlock()
-		sleepCtx(ctx, time.Millisecond) // the fetcher spins on errors
+		if !stable {
+			// the fetcher spins on errors. No timer once the source is stable: then a
+			// goroutine of the node that is blocked is blocked on another goroutine,
+			// which is what the quiescence proof relies on.
+			sleepCtx(ctx, time.Millisecond)
+		}
 		return jsync.CommittedBlock{}, errNotYet
 	}
 	s.effTick()
@@ -329,6 +382,12 @@ func (s *source) BlockHeaderLatest(ctx context.Context) (*core.Header, error) {
 		s.mu.Lock()
 	}
 	s.effTick()
+	if s.oneShotHdr && s.headerReqs > 1 {
+		s.oneShotHdr = false
+		s.stats["one_shot_errors_on_latest_header"]++
+		s.mu.Unlock()
+		return nil, errInjected
+	}
 	if beh == behErr {
 		s.stats["injected_errors"]++
 		s.mu.Unlock()
@@ -379,7 +438,9 @@ func (s *source) onHead(hash *felt.Felt, cur *headInfo) headFacts {
 	_, can := s.canonIx[*hash]
 	_, srv := s.served[*hash]
 	s.checkConvergedLocked(cur)
+	s.progress.Add(1)
 	s.lastProgress.Store(time.Now().UnixNano())
+	s.releaseParkedLocked()
 	return headFacts{clock: s.clock, canonical: can, served: srv}
 }
 
@@ -402,6 +463,7 @@ func (s *source) stabilise() {
 		return
 	}
 	s.releaseHoldLocked()
+	s.oneShotHead, s.oneShotHdr = false, false
 	s.stable = true
 	s.stableFlag.Store(true)
 	s.lastProgress.Store(time.Now().UnixNano())
@@ -413,6 +475,44 @@ func (s *source) stabilise() {
 	}
 	s.bound = uint64(boundFactor * (l + 50))
 	s.checkConvergedLocked(s.head.Load())
+}
+
+func (s *source) releaseParkedLocked() {
+	if s.parked > 0 {
+		close(s.parkCh)
+		s.parkCh = make(chan struct{})
+	}
+}
+
+// releaseParked answers every parked request ("not available"); returns how many.
+func (s *source) releaseParked() int {
+	s.mu.Lock()
+	defer s.mu.Unlock()
+	n := s.parked
+	s.releaseParkedLocked()
+	return n
+}
+
+// waitUntil blocks until cond (evaluated under the source mutex after every request)
+// holds or maxReqs further requests have arrived.
+func (s *source) waitUntil(ctx context.Context, maxReqs int, cond func() bool) bool {
+	s.mu.Lock()
+	limit := s.reqs + uint64(maxReqs)
+	s.mu.Unlock()
+	for {
+		s.mu.Lock()
+		ok, over := cond(), s.reqs >= limit
+		s.trigger = s.reqs + 1
+		s.mu.Unlock()
+		if ok || over {
+			return ok
+		}
+		select {
+		case <-s.wake:
+		case <-ctx.Done():
+			return false
+		}
+	}
 }
 
 func (s *source) releaseHoldLocked() {
@@ -453,6 +553,10 @@ type action struct {
 	// length of the replacement relative to the replaced suffix: -1 shorter, 0 same, +1 longer
 	LenMode int `json:"len_mode,omitempty"`
 	K       int `json:"k,omitempty"`
+	// reorg: arm a one-shot fault atomically with the reorganisation: "head" = the next
+	// block request for exactly the node's head height fails once; "header" = the next
+	// latest-header request fails once
+	OneShot string `json:"one_shot,omitempty"`
 }
 
 type applied struct {
@@ -463,6 +567,7 @@ type applied struct {
 	NewLen  int    `json:"new_len"`
 	LocalAt int64  `json:"local_head_at_decision"`
 	Note    string `json:"note,omitempty"`
+	OneShot string `json:"one_shot,omitempty"`
 }
 
 // armState: a directed hold waiting to be set by the request handler.
@@ -473,17 +578,18 @@ type armState struct {
 }
 
 type controller struct {
-	grace      time.Duration
-	prearmed   *armState
-	src        *source
-	g          *chain.Gen
-	cur        *chain.Chain
-	tip        *chain.Builder
-	builderNew bool
-	minFork    int
-	script     []action
-	log        []applied
-	err        error
+	waitOneShot bool
+	grace       time.Duration
+	prearmed    *armState
+	src         *source
+	g           *chain.Gen
+	cur         *chain.Chain
+	tip         *chain.Builder
+	builderNew  bool
+	minFork     int
+	script      []action
+	log         []applied
+	err         error
 }
 
 // arm prepares a directed hold: it will be set by the request handler `after`
@@ -516,6 +622,12 @@ func (c *controller) publish(next *chain.Chain, tip *chain.Builder, a applied) {
 	a.Clock = s.clock
 	s.setCanonLocked(blocks)
 	s.releaseHoldLocked()
+	switch a.OneShot {
+	case "head":
+		s.oneShotHead = true
+	case "header":
+		s.oneShotHdr = true
+	}
 	s.mu.Unlock()
 	c.cur, c.tip = next, tip
 	c.log = append(c.log, a)
@@ -557,7 +669,28 @@ func (c *controller) fork(f, k int, a applied) error {
 
 func (c *controller) run(ctx context.Context) {
 	defer c.src.stabilise()
+	defer func() {
+		// optionally let an armed one-shot fault fire before the source becomes stable
+		// (stabilise disarms whatever is still armed: no faults once stable)
+		if c.waitOneShot && ctx.Err() == nil {
+			s := c.src
+			s.waitUntil(ctx, 3000, func() bool { return !s.oneShotHead && !s.oneShotHdr })
+		}
+	}()
 	for _, act := range c.script {
+		if act.Kind == "sync" {
+			// wait until the node's head is the source's tip (or give up after many requests)
+			s := c.src
+			ok := s.waitUntil(ctx, 4000+act.After, func() bool {
+				h := s.head.Load()
+				return h.num == int64(len(s.canon))-1 && h.hash == *s.canon[len(s.canon)-1].Block.Hash
+			})
+			if ctx.Err() != nil {
+				return
+			}
+			c.log = append(c.log, applied{Kind: "sync", LocalAt: s.head.Load().num, OldLen: c.cur.Len(), NewLen: c.cur.Len(), Note: fmt.Sprintf("node at source tip: %v", ok)})
+			continue
+		}
 		if act.Kind != "attack" && !c.src.waitReqs(ctx, act.After) {
 			return
 		}
@@ -587,7 +720,7 @@ func (c *controller) run(ctx context.Context) {
 			default:
 				k = replaced + 1 + act.K%5
 			}
-			if err := c.fork(f, k, applied{Kind: "reorg", LocalAt: local}); err != nil {
+			if err := c.fork(f, k, applied{Kind: "reorg", LocalAt: local, OneShot: act.OneShot}); err != nil {
 				c.err = err
 				return
 			}
